@@ -4,7 +4,7 @@
    statement holds for any scalar structure S (reals, binary64) and for decks of
    any size. *)
 From Coq Require Import List NArith ZArith Bool String Ascii Lia.
-From T4V Require Import Base.Str Base.Scalar C17.Model C17.Proofs C17.ProofsStrings.
+From T4V Require Import Base.Str Base.Scalar C17.Model C17.Proofs C17.ProofsStrings C17.ProofsSteps C17.ProofsClasses C17.ProofsSteps2.
 Import ListNotations.
 Open Scope string_scope.
 
@@ -332,6 +332,219 @@ Theorem C17_latopt_malformed_rejected : forall T (S : Scalar T) (d : deckm (T:=T
 Proof. exact @run_latopt_malformed_rejected. Qed.
 Print Assumptions C17_latopt_malformed_rejected.
 
+(* ---------------- a faulty keyword behind ANY options ---------------- *)
+
+(* the executed keyword loop is the iteration of [kw_step] (one keyword and its
+   arguments per turn); [arrives trs l k l' k' n] = started on l in state k the
+   loop stands in front of l' in state k' after n turns.  If the loop does not
+   arrive at a keyword, an earlier option failed (the run is not Ok either) or
+   the keyword was swallowed as the value of IMP/U/LAT/RHO/MAT. *)
+Theorem C17_keyword_loop_unfold : forall T (S : Scalar T) f trs e rest k,
+  parse_kw S (Datatypes.S f) trs (e :: rest) k =
+  bind (kw_step S trs e rest k) (fun p => parse_kw S f trs (fst p) (snd p)).
+Proof. exact @parse_kw_unfold. Qed.
+Print Assumptions C17_keyword_loop_unfold.
+
+Theorem C17_inline_trcl_m_rejected_any : forall T (S : Scalar T) (d : deckm (T:=T)) c e ps rest,
+  In c (d_cells d) ->
+  (forall trs, stage_trs S (d_trs d) [] = Ok trs ->
+     exists k n, arrives S trs (c_toks c) kws0 (e :: ps ++ rest)%list k n) ->
+  prefix "imp" (tsp e) = false -> contains_sub "fill" (tsp e) = false ->
+  contains_sub "lat" (tsp e) = false -> contains_sub "trcl" (tsp e) = true ->
+  forallb numeric_lead ps = true -> forallb (fun p => num_lit (tsp p)) ps = true ->
+  stops rest -> List.length ps = 13%nat ->
+  seqb S (last (map tval ps) (s1 S)) (s1 S) = false ->
+  is_ok (validate S d) = false.
+Proof. exact @run_inline_trcl_m_rejected_any. Qed.
+Print Assumptions C17_inline_trcl_m_rejected_any.
+
+Theorem C17_inline_fill_m_rejected_any : forall T (S : Scalar T) (d : deckm (T:=T)) c e u ps rest,
+  In c (d_cells d) ->
+  (forall trs, stage_trs S (d_trs d) [] = Ok trs ->
+     exists k n, arrives S trs (c_toks c) kws0 (e :: u :: ps ++ rest)%list k n) ->
+  prefix "imp" (tsp e) = false -> contains_sub "fill" (tsp e) = true ->
+  has_colon u = false -> float_lit (tsp u) = true ->
+  forallb numeric_lead ps = true -> forallb (fun p => num_lit (tsp p)) ps = true ->
+  stops rest -> List.length ps = 13%nat ->
+  seqb S (last (map tval ps) (s1 S)) (s1 S) = false ->
+  is_ok (validate S d) = false.
+Proof. exact @run_inline_fill_m_rejected_any. Qed.
+Print Assumptions C17_inline_fill_m_rejected_any.
+
+Theorem C17_fill_array_short_rejected_any : forall T (S : Scalar T) (d : deckm (T:=T)) c e first rs nums b,
+  In c (d_cells d) ->
+  (forall trs, stage_trs S (d_trs d) [] = Ok trs ->
+     exists k n, arrives S trs (c_toks c) kws0 (e :: first :: rs ++ nums)%list k n) ->
+  prefix "imp" (tsp e) = false -> contains_sub "fill" (tsp e) = true ->
+  has_colon first = true -> forallb has_colon rs = true ->
+  Forall (fun t => has_colon t = false) nums -> Forall (plain (T:=T)) nums ->
+  parse_ranges (map tsp (first :: rs)) = Ok b ->
+  (Z.of_nat (List.length nums) < bounds_size b)%Z ->
+  is_ok (validate S d) = false.
+Proof. exact @run_fill_array_short_rejected_any. Qed.
+Print Assumptions C17_fill_array_short_rejected_any.
+
+Theorem C17_lattice_no_opt_rejected_any : forall T (S : Scalar T) (d : deckm (T:=T)) c,
+  In c (d_cells d) ->
+  (forall lat, parse_lattice (d_latopts d) = Ok lat -> lookup (c_id c) lat = None) ->
+  (forall trs, stage_trs S (d_trs d) [] = Ok trs ->
+     exists k n fr, arrives S trs (c_toks c) kws0 [] k n /\
+                    k_fill k = Some fr /\ f_bounds fr = None /\ k_lat k <> None) ->
+  is_ok (validate S d) = false.
+Proof. exact @run_lattice_no_opt_rejected_any. Qed.
+Print Assumptions C17_lattice_no_opt_rejected_any.
+
+(* options the loop is proved to consume exactly: the skippable ones, and TRCL /
+   FILL=n with an inline transformation of an accepted length; they compose *)
+Theorem C17_arrives_options : forall T (S : Scalar T) trs,
+  (forall pre n, skippable pre n -> forall suffix k, exists k', arrives S trs (pre ++ suffix)%list k suffix k' n) /\
+  (forall e ps rest k,
+     prefix "imp" (tsp e) = false -> contains_sub "fill" (tsp e) = false ->
+     contains_sub "lat" (tsp e) = false -> contains_sub "trcl" (tsp e) = true ->
+     forallb numeric_lead ps = true -> forallb (fun p => num_lit (tsp p)) ps = true ->
+     stops rest -> List.length ps <> 1%nat -> List.length ps <> 13%nat ->
+     tr_len_ok (List.length ps) = true ->
+     exists k', arrives S trs (e :: ps ++ rest)%list k rest k' 1) /\
+  (forall e u ps rest k,
+     prefix "imp" (tsp e) = false -> contains_sub "fill" (tsp e) = true ->
+     has_colon u = false -> float_lit (tsp u) = true ->
+     forallb numeric_lead ps = true -> forallb (fun p => num_lit (tsp p)) ps = true ->
+     stops rest -> List.length ps <> 1%nat -> List.length ps <> 13%nat ->
+     tr_len_ok (List.length ps) = true ->
+     exists k', arrives S trs (e :: u :: ps ++ rest)%list k rest k' 1) /\
+  (forall l k l1 k1 l2 k2 n m,
+     arrives S trs l k l1 k1 n -> arrives S trs l1 k1 l2 k2 m -> arrives S trs l k l2 k2 (n + m)).
+Proof. exact @p_C17_arrives_options. Qed.
+Print Assumptions C17_arrives_options.
+
+(* ... and TRCL=n (an existing TR card), FILL arrays of exactly size(ranges)
+   plain numbers, with or without an inline transformation behind them *)
+Theorem C17_arrives_options_more : forall T (S : Scalar T) trs,
+  (forall e p rest k n,
+     prefix "imp" (tsp e) = false -> contains_sub "fill" (tsp e) = false ->
+     contains_sub "lat" (tsp e) = false -> contains_sub "trcl" (tsp e) = true ->
+     numeric_lead p = true -> num_lit (tsp p) = true -> stops rest ->
+     lookup (tint p) trs = Some n ->
+     exists k', arrives S trs (e :: p :: rest) k rest k' 1) /\
+  (forall e first rs nums ps rest b k,
+     prefix "imp" (tsp e) = false -> contains_sub "fill" (tsp e) = true ->
+     has_colon first = true -> forallb has_colon rs = true ->
+     Forall (fun t => has_colon t = false) nums -> Forall (plain (T:=T)) nums ->
+     parse_ranges (map tsp (first :: rs)) = Ok b ->
+     Z.of_nat (List.length nums) = bounds_size b -> nums <> [] ->
+     forallb numeric_lead ps = true -> forallb (fun p => num_lit (tsp p)) ps = true ->
+     stops rest -> List.length ps <> 1%nat -> List.length ps <> 13%nat ->
+     tr_len_ok (List.length ps) = true ->
+     exists k', arrives S trs (e :: first :: rs ++ nums ++ ps ++ rest)%list k rest k' 1).
+Proof. exact @p_C17_arrives_options_more. Qed.
+Print Assumptions C17_arrives_options_more.
+
+(* ---------------- the open finding classes, characterised ---------------- *)
+
+(* surplus_surface_params / gq_short_params: a card of an elementary mnemonic
+   whose number of entries is not the manual's ([manual_arity]) is converted
+   exactly when [wrongly_accepted]: >= 2 entries on PX PY PZ SO CX CY CZ, >= 3 on
+   SX SY SZ, >= 4 on C/X C/Y C/Z and KX KY KZ, >= 6 on K/X K/Y K/Z, >= 11 on SQ,
+   any count but 10 on GQ; every other wrong count is rejected *)
+Theorem C17_surplus_surface_params_exact : forall T (S : Scalar T) mn (p : list T),
+  In mn elementary -> p <> [] -> manual_arity mn (List.length p) = false ->
+  is_ok (surface_check S mn p) = wrongly_accepted mn (List.length p).
+Proof. exact @surplus_surface_params_exact. Qed.
+Print Assumptions C17_surplus_surface_params_exact.
+
+Example wrongly_accepted_table :
+  map (fun c => wrongly_accepted (fst c) (snd c))
+      [("so", 2); ("kz", 4); ("kz", 1); ("k/z", 6); ("gq", 9); ("gq", 11); ("sq", 9); ("p", 5); ("s", 5);
+       ("tz", 7); ("x", 6)]%nat
+  = [true; true; false; true; true; true; false; false; false; false; false].
+Proof. reflexivity. Qed.
+
+(* fill_array_surplus_3 / _tr / _2_void and C06's array_entry_transformation:
+   whatever tokens follow the size(ranges) universes of a FILL array are handed,
+   all together, to the function that reads the transformation of FILL=n (...);
+   the array is accepted iff that function accepts them (nothing: no
+   transformation; one number: a TR card; three: a translation; 2, 6, 9, 12, 14+:
+   a matrix, see C17_tr_arity_exact) *)
+Theorem C17_fill_array_trailing_numbers : forall T (S : Scalar T) star trs first rs
+    (nums more : list (tok (T:=T))) b,
+  has_colon first = true -> forallb has_colon rs = true ->
+  Forall (fun t => has_colon t = false) nums -> Forall (plain (T:=T)) nums ->
+  parse_ranges (map tsp (first :: rs)) = Ok b ->
+  Z.of_nat (List.length nums) = bounds_size b -> nums <> [] ->
+  parse_fill S star trs (first :: rs ++ nums ++ more)%list =
+  bind (fill_params S true star trs more)
+       (fun p => Ok (mkFill (Some b) (map (fun t => Some (tint t)) nums) (fst p), snd p)).
+Proof. exact @fill_array_trailing_numbers. Qed.
+Print Assumptions C17_fill_array_trailing_numbers.
+
+(* facet_unchecked_in_skipped_cell: the conversion stage (the only place where
+   facets of untransformed cells are checked) looks at no cell of importance 0,
+   of a universe other than 0, or with LAT: whatever their literals *)
+Theorem C17_facet_skipped_cells_unchecked : forall T (S : Scalar T) (sm : smap) all
+    (cells : list (cellc * cellsum (T:=T))),
+  forallb (not_converted S) cells = true -> stage_convert S sm all cells = Ok tt.
+Proof. exact @stage_convert_skips. Qed.
+Print Assumptions C17_facet_skipped_cells_unchecked.
+
+(* ---------------- which rejections name the problem ---------------- *)
+
+(* the exception class of every rejected entry count of every elementary
+   mnemonic ([elem_error]); those of S C K SX.. C/X.. K/X.. KX.. SQ T are raised by
+   Python itself (TypeError, IndexError, KeyError) and say nothing about the card *)
+Theorem C17_surface_rejection_class : forall T (S : Scalar T) mn (p : list T),
+  In mn elementary -> p <> [] -> elem_accepts mn (List.length p) = false ->
+  surface_check S mn p = Err (elem_error mn).
+Proof. exact @surface_rejection_class. Qed.
+Print Assumptions C17_surface_rejection_class.
+
+Theorem C17_anonymous_surface_rejections : forall T (S : Scalar T) mn (p : list T),
+  In mn ["s";"c";"k";"sx";"sy";"sz";"c/x";"c/y";"c/z";"k/x";"k/y";"k/z";"kx";"ky";"kz";"sq";"t"] ->
+  p <> [] -> elem_accepts mn (List.length p) = false ->
+  exists e, surface_check S mn p = Err e /\ anonymous e = true.
+Proof. exact @anonymous_surface_rejections. Qed.
+Print Assumptions C17_anonymous_surface_rejections.
+
+(* a transformation with 8 entries ends in a bare StopIteration, the other
+   refused counts in a TransformationError *)
+Theorem C17_tr_arity_error_class : forall T (S : Scalar T) (t : list T),
+  List.length t <> 13%nat -> tr_len_ok (List.length t) = false ->
+  norm_tr_len S t = Err (if (List.length t =? 8)%nat then EStopIteration else ETransformation).
+Proof. exact @tr_arity_error_class. Qed.
+Print Assumptions C17_tr_arity_error_class.
+
+(* ---------------- transformation lengths at the FILL and lattice stages ---------------- *)
+
+(* in every finished run: FILL=n of a real-world cell with a transformation (its
+   own, else its TRCL) into a universe that has a cell with a surface uses 12
+   entries (the 10/11-entry results of 1- and 2-entry forms stop the run there) *)
+Theorem C17_fill_transformation_length : forall T (S : Scalar T) (d : deckm (T:=T)),
+  validate S d = Ok tt ->
+  forall lat trs sm imps cells,
+    parse_lattice (d_latopts d) = Ok lat -> stage_trs S (d_trs d) [] = Ok trs ->
+    stage_surfs S trs (d_surfs d) [] = Ok sm -> imp_cards_check S (d_imps d) = Ok imps ->
+    stage_cells S trs imps lat 0 (d_cells d) = Ok cells ->
+    forall c cs u k fc, In (c, cs) cells -> cs_fill cs = Some (FUniv u) -> cs_lat cs = None ->
+      cs_u cs = 0%Z -> fill_tr_length cs = Some k -> In fc (fillers u cells) ->
+      c_lits (fst fc) <> [] -> k = 12%nat.
+Proof. exact @run_fill_transformation_length. Qed.
+Print Assumptions C17_fill_transformation_length.
+
+(* ... and a lattice with at least one element that is not void has no fill
+   transformation or a full one, and without one a full TRCL *)
+Theorem C17_lattice_transformation_length : forall T (S : Scalar T) (d : deckm (T:=T)),
+  validate S d = Ok tt ->
+  forall lat trs sm imps cells,
+    parse_lattice (d_latopts d) = Ok lat -> stage_trs S (d_trs d) [] = Ok trs ->
+    stage_surfs S trs (d_surfs d) [] = Ok sm -> imp_cards_check S (d_imps d) = Ok imps ->
+    stage_cells S trs imps lat 0 (d_cells d) = Ok cells ->
+    forall c cs z b univs, In (c, cs) cells -> cs_lat cs = Some z ->
+      cs_fill cs = Some (FLat b univs) -> c_compl c = [] ->
+      existsb univ_nonzero univs = true ->
+      (cs_filltr cs = 0 \/ 12 <= cs_filltr cs)%nat /\
+      (cs_filltr cs = 0%nat -> forall k, cs_trcl cs = Some k -> (12 <= k)%nat).
+Proof. exact @run_lattice_transformation_length. Qed.
+Print Assumptions C17_lattice_transformation_length.
+
 (* ---------------- summary ---------------- *)
 
 (* every run that finishes normally is free of: malformed --lattice arguments,
@@ -370,6 +583,17 @@ Proof.
   - apply sk_u; try reflexivity. apply sk_nil.
   - apply sk_nil.
   - apply sk_imp; try reflexivity. apply sk_nil.
+Qed.
+
+(* FILL=2 (1 2 3) in front of a TRCL keyword: the loop arrives at the TRCL *)
+Example arrives_behind_fill : forall T (S : Scalar T) (suffix : list (tok (T:=T))),
+  stops suffix ->
+  exists k', arrives S [] ([tk S "fill" 0; tk S "2" 2; tk S "1" 1; tk S "2" 2; tk S "3" 3]%Z ++ suffix)%list
+                     kws0 suffix k' 1.
+Proof.
+  intros T S suffix Hs.
+  apply (arrives_fill_n S [] (tk S "fill" 0%Z) (tk S "2" 2%Z) [tk S "1" 1; tk S "2" 2; tk S "3" 3]%Z suffix kws0);
+    try reflexivity; try exact Hs; discriminate.
 Qed.
 
 (* options the keyword loop steps over: IMP:N=1 U=2 in front of a keyword *)
